@@ -88,13 +88,13 @@ var c07Getters = []c07Getter{
 	{"Software.GetFrom", 0x8022, func(m *stun.Message) string { var a stun.Software; err := a.GetFrom(m); return bytesOut(a, err) }},
 	{"Fingerprint.Check", 0x8028, func(m *stun.Message) string {
 		if err := stun.Fingerprint.Check(m); err != nil {
-			return "err:" + errClass(err)
+			return "err:" + c07ErrClass(err)
 		}
 		return "ok"
 	}},
 	{"MessageIntegrity.Check", 0x0008, func(m *stun.Message) string {
 		if err := stun.MessageIntegrity(c07Key).Check(m); err != nil {
-			return "err:" + errClass(err)
+			return "err:" + c07ErrClass(err)
 		}
 		return "ok"
 	}},
@@ -102,7 +102,7 @@ var c07Getters = []c07Getter{
 
 // errClass drops the byte dumps the debug build embeds in mismatch errors
 // (they are a function of value and covered span anyway, but long).
-func errClass(err error) string {
+func c07ErrClass(err error) string {
 	s := err.Error()
 	if len(s) > 60 {
 		s = s[:60]
